@@ -47,11 +47,13 @@ def history(ctx, case):
                     ctx.check('role from the direction of get_registry, unknown otherwise', c.is_server() is role)
                     ctx.check('with a fresh object table and exactly this message', list(c.db.keys()) == [1] and len(c.messages()) == 1 and c.messages()[0].args[0].value == tag)
                     ctx.check('open', c.is_open())
+                    ctx.check('the message is attributed to an object of THIS connection (fresh table: its own wl_display)', c.messages()[-1].obj.resolved() and c.messages()[-1].obj is c.wl_display())
             else:
                 ref[cur[-1]][3] += 1
                 c = before[cur[-1]][0]
                 ctx.check('no new connection for a known open address', len(w.manager.connections()) == len(before))
                 ctx.check('message recorded on the connection of that address, whatever the thread', len(c.messages()) == before[cur[-1]][2] + 1 and c.messages()[-1].args[0].value == tag)
+                ctx.check('and attributed to an object of THAT connection', c.messages()[-1].obj.resolved() and c.messages()[-1].obj is c.wl_display())
         else:
             ret = gdbworld.fire_destroy(w, ADDRS[a], thread)
             ctx.check('stop() of the destroy breakpoint never halts the program', ret is False)
